@@ -167,6 +167,21 @@ let () =
                | RFindError -> "finderr" | RUnsupported -> "unsupported" in
              Printf.printf "state %d %s | %s\n" k (show d) rec_str
            done
+         | "guard" ->
+           (* guard <on_rewriting 0|1> <ev>... : ev in R(equest) D(efer) B(arrier) F(inish); the guard state machine of
+              rewriteAofFiles: one line per event `g <rewriting> <wait> <active> <marks>` *)
+           let sw = t.(1) = "1" in
+           let g = ref g_idle in
+           let b x = if x then 1 else 0 in
+           Printf.printf "g %d %d %d -\n" (b !g.g_rewriting) (b !g.g_wait) (int_of_nat !g.g_active);
+           for i = 2 to Array.length t - 1 do
+             let e = match t.(i) with "R" -> GRequest | "D" -> GDefer | "B" -> GBarrier | "F" -> GFinish
+                                    | x -> failwith ("bad guard event " ^ x) in
+             let marks = glog sw [e] !g in
+             g := gstep sw !g e;
+             Printf.printf "g %d %d %d %s\n" (b !g.g_rewriting) (b !g.g_wait) (int_of_nat !g.g_active)
+               (match marks with [] -> "-" | _ -> String.concat "," (List.map (function GStarted -> "started" | GFinished -> "finished") marks))
+           done
          | "holds" ->
            (* holds <rechex>... : reference replayer *)
            let recs = List.map unhex_b (List.tl (Array.to_list t)) in
